@@ -336,3 +336,54 @@ var _ = Service("teams", func() {
 		})
 	})
 })
+
+// Payloads and results that are not objects: maps keyed by every primitive kind, lists, bare primitives.
+// The command line client prints a usage example for each of them (a JSON rendering of a random value).
+func wholeMethod(name string, payload, result any) {
+	Method(name, func() {
+		Payload(payload)
+		Result(result)
+		HTTP(func() {
+			POST("/" + name)
+			Response(StatusOK)
+		})
+	})
+}
+
+var _ = Service("wholes", func() {
+	HTTP(func() { Path("/wholes") })
+	wholeMethod("map_int", MapOf(Int, String), MapOf(Int, Int))
+	wholeMethod("map_int32", MapOf(Int32, String), MapOf(Int32, Boolean))
+	wholeMethod("map_int64", MapOf(Int64, Float64), MapOf(Int64, String))
+	wholeMethod("map_uint", MapOf(UInt, String), MapOf(UInt, UInt))
+	wholeMethod("map_uint32", MapOf(UInt32, ArrayOf(String)), MapOf(UInt32, String))
+	wholeMethod("map_uint64", MapOf(UInt64, String), MapOf(UInt64, Percent))
+	// (maps keyed by Boolean or Float32/64 are accepted by the DSL but `goa gen` fails on them: encoding/json cannot
+	//  marshal the OpenAPI example; recorded under C01 as codegen.map_key_not_json_encodable)
+	wholeMethod("map_string", MapOf(String, MapOf(Int32, String)), MapOf(String, ArrayOf(Int32)))
+	wholeMethod("map_alias", MapOf(Count, String), MapOf(UUID, Percent))
+	wholeMethod("list_int32", ArrayOf(Int32), ArrayOf(MapOf(Int32, String)))
+	wholeMethod("list_float32", ArrayOf(Float32), ArrayOf(UInt64))
+	wholeMethod("list_bytes", ArrayOf(Bytes), Bytes)
+	wholeMethod("bare_int32", Int32, UInt32)
+	wholeMethod("bare_float32", Float32, Int64)
+	wholeMethod("bare_any", Any, Any)
+	Method("map_params", func() {
+		Payload(func() {
+			Attribute("by_int32", MapOf(Int32, String))
+			Attribute("by_uint64", MapOf(UInt64, ArrayOf(Int32)))
+			Attribute("by_int64", MapOf(Int64, Float32))
+			Attribute("h32", ArrayOf(Int32))
+			Attribute("body32", MapOf(Int32, MapOf(UInt32, Boolean)))
+		})
+		Result(MapOf(Int32, MapOf(Int64, String)))
+		HTTP(func() {
+			POST("/map_params")
+			Param("by_int32")
+			Param("by_uint64")
+			Param("by_int64")
+			Header("h32:X-H32")
+			Response(StatusOK)
+		})
+	})
+})
